@@ -11,7 +11,7 @@ from ckl.errors import (
     CklSyntaxError,
     CklRuntimeError
 )
-from ckl.interpreter import Interpreter
+from ckl.interpreter import Interpreter, render, render_error
 
 
 def main():
@@ -47,14 +47,10 @@ def main():
     try:
         result = interpreter.interpret(script, args.script)
         if result != NULL:
-            print(str(result))
+            print(render(result))
     except CklRuntimeError as e:
-        print(str(e.value.value if e.value.isString() else e.value)
-              + ": " + str(e.msg)
-              + " (Line " + str(e.pos) + ")")
-        if e.stacktrace:
-            for st in e.stacktrace:
-                print(str(st))
+        for line in render_error(e):
+            print(line)
     except CklSyntaxError as e:
         print(e.msg + ((" (Line " + str(e.pos) + ")") if e.pos else ""))
 
